@@ -14,7 +14,8 @@ def feat : Features :=
     hasDrain := Gen.concurrentHasDrain && Gen.drainWaitsThenRanges
     recovers := Gen.pullRecovers
     closesOnReturn := Gen.pullClosesOnReturn
-    envCancels := true }
+    envCancels := true
+    sendsBlock := Gen.pullSendsBlock }
 
 def featNoCancel : Features := { feat with envCancels := false }
 
@@ -57,6 +58,11 @@ theorem swallow_after_cancel_possible :
 theorem deadlock_without_drain :
     (explored { feat with hasDrain := false }).all (noDeadlock { feat with hasDrain := false }) = false := by
   decide +kernel
+
+/-- with a non-blocking send of the error (a `select` with `default`) a full buffer drops it and
+the consumer sees a clean end of stream - even without any cancellation -/
+theorem error_lost_with_nonblocking_send :
+    (explored { featNoCancel with sendsBlock := false }).all errorNotSwallowed = false := by decide +kernel
 
 /-- without the deferred recover a panic below kills the process -/
 theorem crash_without_recover :
